@@ -78,6 +78,10 @@ pub fn env(tsize: TerminalSize) -> Env {
     let px = |h: usize, w: usize, v: u8| Image::from(SurfaceOwned::new_with(Size::new(h, w), |p| RGBA::new(v, (p.row % 256) as u8, (p.col % 256) as u8, 255)));
     // cell = 10 px wide, 20 px high
     let mut imgs = vec![(1, px(20, 20, 1)), (2, px(40, 10, 2)), (3, px(40, 20, 3))];
+    // two crops of ONE pixel buffer with the same size and different offsets (1x1 cell each)
+    let parent = px(20, 20, 4);
+    imgs.push((4, parent.crop(.., 0..10)));
+    imgs.push((5, parent.crop(.., 10..20)));
     let path: Path = "M0,0 L1,0 L1,1 Z".parse().unwrap();
     let glyph = Glyph::new(path, FillRule::NonZero, None, Size::new(1, 2), "g".to_string(), None);
     for (fi, f) in faces.iter().enumerate() {
@@ -107,6 +111,8 @@ pub fn env(tsize: TerminalSize) -> Env {
         gl(2),       // 10 glyph face 2
         ch(3, 'c'),  // 11
         ch(1, ' '),  // 12 blank face 1
+        im(0, 4),    // 13 image 1x1, left half of a shared buffer
+        im(0, 5),    // 14 image 1x1, right half of the same buffer
     ];
     Env { faces, imgs, chars, alphabet }
 }
@@ -152,6 +158,7 @@ fn img_dims(a: usize) -> Option<(usize, usize)> {
         6 | 9 | 10 => Some((1, 2)),
         7 => Some((2, 1)),
         8 => Some((2, 2)),
+        13 | 14 => Some((1, 1)),
         _ => None,
     }
 }
